@@ -49,6 +49,28 @@ static void run_op(const std::vector<std::string> &w, const std::string &, out &
         return;
     }
     const std::string &codec = w[1];
+    if (op == "feednb")
+    {
+        // the public constructor gstuff_autorecv(ctx) WITHOUT setbuf: sline {buf = NULL, cap = 0}
+        bytes s = unhex(w[2]);
+        gstuff_context ctx;
+        if (!codec_ctx(codec, ctx)) { o.result = "bad-op"; return; }
+        gstuff_autorecv r(ctx);
+        trace t;
+        size_t maxsize = 0;
+        for (uint8_t b : s)
+        {
+            int st = r.newchar((char)b);
+            t.sts.push_back(sts_char(st));
+            if (r.size() > maxsize) maxsize = r.size();
+            if (st == GSTUFF_NEWPACKAGE) o.fail("packet delivered by a receiver that has no buffer");
+        }
+        o.result = t.show();
+        if (maxsize > 0) o.fail("receiver without a buffer stored bytes");
+        o.tag("no-buffer");
+        if (t.sts.find('O') != std::string::npos) o.tag("overflow");
+        return;
+    }
     unsigned cap = (unsigned)strtoul(w[2].c_str(), 0, 10);
     alphabet a = alpha_by(codec);
     if (op == "feed" || op == "feedstrict")
@@ -57,11 +79,14 @@ static void run_op(const std::vector<std::string> &w, const std::string &, out &
         size_t maxsize = 0;
         trace t = feed_stream(codec, cap, s, &maxsize);
         o.result = t.show();
-        if (maxsize > cap - 1) o.fail("receiver stored more than capacity-1 bytes");
+        // capacity-1 bytes at most (capacity 0: nothing; no unsigned wrap in the oracle)
+        if (maxsize + 1 > (size_t)cap && maxsize > 0) o.fail("receiver stored more than capacity-1 bytes");
         for (auto &p : t.packets)
-            if (p.size() + 1 > cap - 1) o.fail("delivered packet longer than the buffer allows");
-        bool strict = codec != "leg" || op == "feedstrict";
-        sound_oracle(codec, s, t, strict, o);
+            if (p.size() + 2 > (size_t)cap) o.fail("delivered packet longer than the buffer allows");
+        if (cap < 2) o.tag("tiny-capacity");
+        // since `fix: legacy receiver hunts for the start marker` the legacy receiver is judged
+        // by the same strict oracle as the configurable one
+        sound_oracle(codec, s, t, true, o);
         if (t.sts.find('N') != std::string::npos) o.tag("packet");
         if (t.sts.find('O') != std::string::npos) o.tag("overflow");
         if (t.sts.find('c') != std::string::npos) o.tag("crc-error");
@@ -84,7 +109,23 @@ static void run_op(const std::vector<std::string> &w, const std::string &, out &
         }
         trace t = feed_stream(codec, cap, s);
         o.result = t.show();
-        sound_oracle(codec, s, t, codec != "leg", o);
+        sound_oracle(codec, s, t, true, o);
+        // OVERFLOW CLAUSE "... rather than delivered": whatever is delivered after the garbage prefix
+        // (and, when start == stop, after the first frame's opening marker, which may complete a packet
+        // begun inside the garbage) must be one of the payloads that were sent and fit, in the order sent;
+        // in particular no part of an over-long frame may come out as a packet
+        {
+            size_t from = glen + ((a.start == a.stop && glen > 0) ? 1 : 0), pk = 0, next = 0;
+            for (size_t i = 0; i < t.sts.size(); i++)
+            {
+                if (t.sts[i] != 'N') continue;
+                const bytes &got = t.packets[pk++];
+                if (i < from) continue;
+                while (next < ps.size() && !(ps[next] == got && ps[next].size() + 2 <= cap)) next++;
+                if (next == ps.size()) { o.fail("a packet was delivered that is none of the frames sent (part of an over-long frame?)"); break; }
+                next++;
+            }
+        }
         // expected deliveries: every payload that fits; when start == stop the
         // frame right after the garbage prefix or after an over-long frame may be lost
         bool coincide = a.start == a.stop;
@@ -219,6 +260,75 @@ static void gen(rng &r, const std::string &tier)
             size_t n = r.chance(80) ? r.below(60) : r.below(2001);
             printf("feed %s %d %s\n", codec, (int)r.range(2, 40), hex(rnd_noise(r, a, n)).c_str());
         }
+        // (3b) capacities 0 and 1 (outside the property's quantifier, inside its "every receive buffer
+        // size"): nothing may ever be stored; exhaustive short streams + noise
+        for (int cap = 0; cap <= 1; cap++)
+        {
+            for (int len = 0; len <= 3; len++)
+            {
+                long total = 1;
+                for (int i = 0; i < len; i++) total *= k;
+                for (long code = 0; code < total; code++)
+                {
+                    bytes s;
+                    long c = code;
+                    for (int i = 0; i < len; i++, c /= k) s.push_back(al[c % k]);
+                    printf("feed %s %d %s\n", codec, cap, hex(s).c_str());
+                    if (cap == 0 && ci < 2) printf("feednb %s %s\n", codec, hex(s).c_str());
+                }
+            }
+            for (int rep = 0; rep < (th ? 100 : 10); rep++)
+            {
+                bytes f = ref_frame(a, rnd_payload(r, a, r.below(5)));
+                bytes n = rnd_noise(r, a, r.below(40));
+                f.insert(f.end(), n.begin(), n.end());
+                printf("feed %s %d %s\n", codec, cap, hex(f).c_str());
+                if (cap == 0 && ci < 2) printf("feednb %s %s\n", codec, hex(f).c_str());
+            }
+        }
+        // (4a) over-long well-formed frames whose TAIL behind the overflow point is itself CRC-consistent
+        // (the first `cap` unescaped bytes have CRC-8 residue FF, so  tail ++ crc8(whole payload)  =
+        // tail ++ crc8(tail)): a receiver that starts accumulating again right after the OVERFLOW
+        // delivers the tail as a packet.  Followed by two ordinary frames.
+        for (int rep = 0; rep < (th ? 600 : 80); rep++)
+        {
+            int cap = (int)r.range(3, 12);
+            bytes head = rnd_payload(r, a, (size_t)cap);
+            for (int x = 0; x < 256; x++)
+            {
+                head.back() = (uint8_t)x;
+                if (ref_crc8(head) == 0xFF) break;
+            }
+            bytes tail = rnd_payload(r, a, 1 + r.below((size_t)cap - 2));
+            bytes p = head;
+            p.insert(p.end(), tail.begin(), tail.end());
+            bytes g = rnd_noise(r, a, r.chance(50) ? 0 : r.below(6));
+            printf("resync %s %d %s %s %s %s\n", codec, cap, hex(g).c_str(), hex(p).c_str(),
+                   hex(rnd_payload(r, a, r.below((size_t)cap - 1))).c_str(), hex(rnd_payload(r, a, r.below((size_t)cap - 1))).c_str());
+            bytes f = ref_frame(a, p);
+            printf("feed %s %d %s\n", codec, cap, hex(f).c_str());
+        }
+        // (4c) garbage that is a marker-delimited, non-empty segment whose running CRC-8 comes back to
+        // the seed FF (or to 0: a segment that "checks" although it is no frame of ours), then frames:
+        // a receiver that tells "nothing received yet" from the CRC value instead of from the line
+        // swallows the delimiter and glues the segment to the next frame
+        for (int rep = 0; rep < (th ? 400 : 60); rep++)
+        {
+            int cap = (int)r.range(6, 24);
+            bytes seg = rnd_payload(r, a, 1 + r.below(4));
+            for (auto &x : seg) if (x == a.start || x == a.stop || x == a.stub) x = 0x33;
+            uint8_t want = (rep % 3 == 2) ? 0x00 : 0xFF;
+            for (int x = 0; x < 256; x++)
+            {
+                seg.back() = (uint8_t)x;
+                if (x != a.start && x != a.stop && x != a.stub && ref_crc8(seg) == want) break;
+            }
+            bytes g = {a.start};
+            g.insert(g.end(), seg.begin(), seg.end());
+            if (rep % 2) g.push_back(a.stop);
+            printf("resync %s %d %s %s %s %s\n", codec, cap, hex(g).c_str(), hex(rnd_payload(r, a, r.below(4))).c_str(),
+                   hex(rnd_payload(r, a, r.below(4))).c_str(), hex(rnd_payload(r, a, r.below(4))).c_str());
+        }
         // (4) garbage prefix followed by well-formed frames (and an over-long one now and then)
         for (int rep = 0; rep < (th ? 2000 : 250); rep++)
         {
@@ -235,8 +345,8 @@ static void gen(rng &r, const std::string &tier)
             puts(line.c_str());
         }
     }
-    // (5) recorded finding C05-legacy-no-hunt: the legacy receiver accepts a
-    // frame that does not begin at a start marker
+    // (5) repaired defect C05-legacy-no-hunt (was a recorded finding): a frame body that does not
+    // begin at a start marker (stream start / after a DATA_ERROR) must not be delivered
     {
         alphabet a = alpha_leg();
         for (int rep = 0; rep < 20; rep++)
@@ -245,7 +355,7 @@ static void gen(rng &r, const std::string &tier)
             bytes f = ref_frame(a, p);
             f.erase(f.begin()); // no start marker at all
             if (rep % 2) { bytes pre = {a.start, a.stub, 0x00}; f.insert(f.begin(), pre.begin(), pre.end()); } // after a DATA_ERROR
-            printf("@F:C05-legacy-no-hunt feedstrict leg 16 %s\n", hex(f).c_str());
+            printf("feedstrict leg 16 %s\n", hex(f).c_str());
         }
     }
 }
